@@ -7,6 +7,7 @@ import (
 	"math/rand"
 	"regexp"
 	"sort"
+	"strconv"
 	"strings"
 	"unicode/utf8"
 
@@ -36,7 +37,7 @@ func init() {
 		Rule: "seq: a generated document (member names from a path-safe pool incl. the numerals '0','1'; a second pool holds arbitrary text: non-ASCII names, spaces, dots, percent-escapes, '#', '+', backslash, '~' and '/', written into the pointer string with ~0/~1) and 10–40 operation objects generated against the evolving document " +
 			"(evolved with the Go reference interpreter): existing locations, neighbours (other member, index in range / one past / far past), children of leaves, deep non-existent locations, " +
 			"non-numeric and negative tokens against lists (a fixed pool; canonical numerals of 10-65 digits at and around 2^31 .. 2^128, incl. B+k with k a valid index of the very list; element-selector look-alikes written from the list's own content: " +
-			"member name, value, name=value, name:value, name==value, [name=value], [?(@.name=='value')], * — as last token and in the middle of an otherwise existing location), missing from/value/path, unknown op, move onto itself / into own descendant / within one list, test with the present and with a near-miss value; " +
+			"member name, value, name=value, name:value, name==value, [name=value], [?(@.name=='value')], * — as last token and in the middle of an otherwise existing location), missing from/value/path, unknown op, move onto itself / into own descendant / within one list, test with the present, a mutated and a near-miss value (neighbouring integer — also beyond 2^53 —, the same numeral in another number type, the same text as string / number / boolean); " +
 			"values are arbitrary nodes. Applied one by one through patch.Do with a fresh OpObj built by patch.ParsePath (via=do) or through pipeline.PatchOp (via=pipeline); " +
 			"after every successful copy a probe edit is made inside the copy and the source is read back. diff: two documents, xform.DiffMod2PatchOp(diff.Diff(L,R)) applied to R. " +
 			"Non-trivial: at least one step succeeds and one fails, or a list is edited. distinct = distinct canonical case JSON.",
@@ -322,7 +323,21 @@ func c09GenOp(r *rand.Rand, g *DocGen, cur W) c09Op {
 		}
 		return pick(r, locs).p
 	}
-	value := func() W { return g.Node(r, 1+r.Intn(3)) }
+	hasInt := false
+	for _, t := range g.Types {
+		hasInt = hasInt || t == "int"
+	}
+	value := func() W {
+		if hasInt && r.Intn(15) == 0 {
+			// integers beyond 2^53: neighbours that a detour through float64 cannot tell apart
+			n := 1<<53 + r.Intn(4)
+			if r.Intn(4) == 0 {
+				n = -n
+			}
+			return scalarWire(n)
+		}
+		return g.Node(r, 1+r.Intn(3))
+	}
 	var o c09Op
 	switch k := r.Intn(100); {
 	case k < 30:
@@ -369,8 +384,11 @@ func c09GenOp(r *rand.Rand, g *DocGen, cur W) c09Op {
 		o = c09Op{Op: "test", Path: c09GenPath(r, g, cur)}
 		if v, ok := c09RefGet(cur, o.Path); ok && r.Intn(4) > 0 {
 			o.Value = deepCopyW(v)
-			if r.Intn(3) == 0 {
+			switch r.Intn(6) {
+			case 0, 1:
 				o.Value = g.Mutate(r, o.Value)
+			case 2:
+				o.Value = c09NearMiss(r, o.Value) // "failed test": a value that is nearly, but not, the one present
 			}
 		} else {
 			o.Value = value()
@@ -393,6 +411,85 @@ func c09GenOp(r *rand.Rand, g *DocGen, cur W) c09Op {
 		}
 	}
 	return o
+}
+
+// c09NearMiss: for a scalar, a DIFFERENT value that is as close to it as values get — the neighbouring integer, the
+// same numeral in another number type (int / int64 / float64), the same text as a string or the string's text as a
+// number / boolean; for a composite, the same composite with one scalar replaced that way.
+func c09NearMiss(r *rand.Rand, v W) W {
+	if !isWireLeaf(v) {
+		var slots [][]any
+		wireLeafSlots(v, nil, &slots)
+		if len(slots) == 0 {
+			return v
+		}
+		sl := pick(r, slots)
+		cur := v
+		for _, s := range sl {
+			switch x := s.(type) {
+			case string:
+				c, _ := wireCont(cur)
+				cur = c[x]
+			default:
+				i, _ := s.(int)
+				if f, ok := s.(float64); ok {
+					i = int(f)
+				}
+				cur = cur.([]any)[i]
+			}
+		}
+		if !isWireLeaf(cur) {
+			return v
+		}
+		return wireSetSlot(deepCopyW(v), sl, c09NearMiss(r, cur))
+	}
+	m := v.(map[string]any)
+	t, _ := m["t"].(string)
+	txt, _ := m["v"].(string)
+	mk := func(t, v string) W { return map[string]any{"t": t, "v": v} }
+	switch t {
+	case "int", "int64":
+		n, err := strconv.ParseInt(txt, 10, 64)
+		if err != nil {
+			return mk("string", txt)
+		}
+		switch r.Intn(6) {
+		case 0:
+			return mk(t, fmt.Sprint(n+1))
+		case 1:
+			return mk(t, fmt.Sprint(n-1))
+		case 2:
+			return scalarWire(float64(n))
+		case 3:
+			return mk(map[string]string{"int": "int64", "int64": "int"}[t], txt)
+		case 4:
+			return mk("string", txt)
+		default:
+			return mk(t, fmt.Sprint(-n-1))
+		}
+	case "float64":
+		f, _ := strconv.ParseFloat(txt, 64)
+		if f == float64(int64(f)) && f > -1e18 && f < 1e18 && r.Intn(2) == 0 {
+			return scalarWire(int(f))
+		}
+		if r.Intn(2) == 0 {
+			return mk("string", txt)
+		}
+		return scalarWire(f + 1)
+	case "string":
+		if n, err := strconv.Atoi(txt); err == nil && fmt.Sprint(n) == txt {
+			return scalarWire(n)
+		}
+		if txt == "true" || txt == "false" {
+			return scalarWire(txt == "true")
+		}
+		return mk("string", txt+" ")
+	case "bool":
+		return mk("string", txt)
+	case "nil":
+		return pick(r, []W{mk("string", ""), mk("string", "<nil>"), mk("string", "null"), scalarWire(0), scalarWire(false)})
+	}
+	return mk("string", txt)
 }
 
 func c09GenSeq(r *rand.Rand, g *DocGen, n int, valueFrom bool) c09Seq {
